@@ -67,3 +67,6 @@ Definition model_mutate_one (incl : bool) (op : Z) (x : expr) (d v : jv) : bytes
 
 Require Import Ojg.Jp.Str.
 Definition model_jpstr (s : bytes) (delim : byte) : bytes := hex_of_bytes (append_string s delim).
+
+Definition model_matchdoc (targets : list expr) (d : jv) : bytes :=
+  join_semi (map (fun pc => show_npath (fst pc) ++ x20 :: x7c :: x20 :: show (canon (snd pc))) (match_spec targets d)).
